@@ -1,17 +1,17 @@
 # Sizing and claim for C03 (conversions are total and memory-safe)
 SPEC = {
-    "quick": {"rc_cases": 10000, "rc_procs": 12, "enum": True},
+    "quick": {"rc_cases": 7000, "rc_procs": 12, "enum": True},
     "thorough": {"rc_cases": 100000, "rc_procs": 12, "enum": True, "fuzz_secs": 240, "fuzz_workers": 12},
     "assumptions": [
         "harness/ref/ref_unicode.h is a correct reading of the tolerated/offending forms listed in C02 and of the standard encodings",
         "inputs are exact-size malloc blocks and results are read up to data()[size()], so ASan reports any access outside them; UBSan is fatal",
-        "inputs are at most 4096 units (the < 256 Mi bound of the statement is not approached)",
+        "generated inputs are at most ~1.25 Mi units; over 6000 units only outcome kind, size and terminator are judged; the < 256 Mi bound of the statement is approached only by three fixed probes in the thorough tier (expanding single-character inputs whose UTF-8 form exceeds 256 MiB), which end without a verdict when memory is short",
         "sizeof(wchar_t)==4: the 16-bit wchar_t branches of the library are not compiled on this platform",
     ],
     "claim": {
         "category": "exploration",
-        "technique": "bounded-exhaustive class-alphabet strings + rapidcheck/libFuzzer generated unit strings (mutated, truncated, long) through every conversion route, judged against a per-unit reference decoder for size/terminator/outcome kind under ASan+UBSan",
-        "text": "Every conversion entry point (12 pairs, wchar_t aliases, ST::string in/out routes, all overloads, 3 modes, both Latin-1 flags) is run on exhaustively enumerated short strings over class alphabets of each encoding and on generated garbage, mutated, truncated and long inputs held in exact-size heap blocks; each call must end in a buffer of the reference size with a terminator and fully written, or ST::unicode_error - any other exception, assertion, sanitizer report or CPU-time hang is a violation.",
+        "technique": "bounded-exhaustive class-alphabet strings + a grid of long single-unit runs + rapidcheck/libFuzzer generated unit strings (mutated, truncated, long) through every conversion route and public overload, judged against a per-unit reference decoder for size/terminator/outcome kind under ASan+UBSan",
+        "text": "Every conversion entry point (12 pairs, wchar_t aliases, ST::string in/out routes, all overloads, 3 modes, both Latin-1 flags) is run on exhaustively enumerated short strings over class alphabets of each encoding and on generated garbage, mutated, truncated and long inputs held in exact-size heap blocks; each call must end in a buffer of the reference size with a terminator and fully written, or ST::unicode_error - any other exception, assertion, sanitizer report or CPU-time hang is a violation. The same rule is applied to the extended entry points (STL/string_view/char8_t/C-string overloads, operator+/+= with C strings and characters, set_validated, literal operators, ST::null, filesystem paths, caller-supplied outputs on pre-filled targets, deprecated overloads, view(), sources that alias the target) and to runs of 256 Ki..1 Mi identical units (well-formed characters of each width, Latin-1 high bytes, stray continuation/lead bytes, unpaired surrogates, values above 10FFFF) at block-multiple lengths and one off.",
         "level_note": "Exhaustive only for the short class-alphabet strings stated in the evidence; everything longer is sampled. Trusts ASan/UBSan and the reference decoder.",
     },
 }
